@@ -79,14 +79,22 @@ def run(ctx):
         for m in ("PLAIN", "LOGIN", "OAUTHBEARER"):
             cases.append(([m], m, cred))
             cases.append(([m, "GSSAPI"], None, cred))
+    # two or three implemented mechanisms announced, none named by the caller, credentials REFUSED: the mechanism chosen is the
+    # first of the preference order, and its refusal ends the attempt (directed; `accept` is forced below)
+    forced_refusal = set()
+    for ann in (["PLAIN", "LOGIN"], ["LOGIN", "PLAIN"], ["LOGIN", "OAUTHBEARER"], ["OAUTHBEARER", "PLAIN"], ["PLAIN", "LOGIN", "OAUTHBEARER"],
+                ["OAUTHBEARER", "LOGIN", "GSSAPI", "PLAIN"]):
+        for cred in CREDS[:3]:
+            forced_refusal.add(len(cases))
+            cases.append((ann, None, cred))
     for ann in combos:
         r.shuffle(ann)
         for authmech in r.sample([None, "PLAIN", "LOGIN", "OAUTHBEARER", "DIGEST-MD5", "GSSAPI", "plain"], 3):
             cases.append((ann, authmech, r.choice(CREDS)))
-    for ann, authmech, cred in cases:
+    for ci, (ann, authmech, cred) in enumerate(cases):
         if True:
             login, pw, authz = cred
-            accept = r.random() < 0.7
+            accept = r.random() < 0.7 and ci not in forced_refusal
             sasl = " ".join(ann).encode()
             variant = r.random()
             if variant < 0.08:
@@ -124,6 +132,10 @@ def run(ctx):
                 continue
             if u != login.encode() or p != pw.encode() or (z is not None and z != authz.encode()):
                 viol.append(dict(v, what="%s carries (%r, %r, %r), caller gave (%r, %r, %r)" % (want, u, p, z, login.encode(), pw.encode(), authz.encode())))
+            nauth = sum(1 for t, b in s.wire.writes if b.upper().startswith(b"AUTHENTICATE"))
+            if nauth != 1:
+                viol.append(dict(v, what="%d AUTHENTICATE commands written during one connect (the credentials go out once, by the one mechanism selected): %r" % (
+                    nauth, [b[:30] for t, b in s.wire.writes])))
             if (res == "b1") != accept or ("auth=b1" in out) != accept:
                 viol.append(dict(v, what="server %s the credentials but connect returned %s (authenticated flag %s)" % (
                     "accepted" if accept else "refused", res, "auth=b1" in out)))
